@@ -158,14 +158,16 @@ func c15Campaign(tier string, seed int64, only int, race bool) *campaign {
 							}
 						}
 					case "concurrent":
-						idx := map[string]int{}
-						for k, in := range c.Inputs {
-							idx[pipe.Encode(in)] = k
-						}
 						for _, l := range lists {
 							for _, g := range l {
-								i := strings.Index(g.Msg, "|")
-								k := idx[g.Msg[:i]]
+								// the driver reports the case number in Fetched (the case text itself may
+								// contain any byte, also the separator of Msg)
+								k := g.Fetched
+								if k < 0 || k >= len(base) {
+									o.Status = "inconclusive"
+									o.Detail = "concurrent leg: result without a case number"
+									return
+								}
 								o.count("eval:concurrent_parses", 1)
 								if !sameResult(g, base[k], false) {
 									fail(fmt.Sprintf("%d goroutines on distinct contexts with injected yields", len(lists)), k, g)
